@@ -75,10 +75,11 @@ def body_script(E, sched, single, B, f1, f2, f3, f4, ask, q1, q2, q3, q4, tau, o
     opt = concretize(opt, 0, 3)
     nw = concretize(nw, 0, 1)
     fn = mkfn(base)
+    per = 2 if nw else 1                 # two settings per batch when the script asks for worker processes
     with E() as env:
-        ref = combo_runner(fn, grid(B), verbosity=0)
-        crop = cp.Crop(fn=fn, name="t", parent_dir=env.parent, batchsize=1)
-        crop.sow_combos(grid(B), verbosity=0)
+        ref = combo_runner(fn, grid(B * per), verbosity=0)
+        crop = cp.Crop(fn=fn, name="t", parent_dir=env.parent, batchsize=per)
+        crop.sow_combos(grid(B * per), verbosity=0)
         for i in fin:
             cp.grow(i, crop=crop, verbosity=0)
         if len(fin) == B and not ask:
@@ -97,6 +98,7 @@ def body_script(E, sched, single, B, f1, f2, f3, f4, ask, q1, q2, q3, q4, tau, o
         want = list(asked) if ask else [i for i in range(1, B + 1) if i not in fin]
         code = compile(prog, "<generated cluster script>", "exec")      # SyntaxError => refutation
         grown = []
+        grow_kw = {}
 
         def recorder(batch_number, crop=None, **kw):
             if crop is None or crop.name != "t":
@@ -104,6 +106,7 @@ def body_script(E, sched, single, B, f1, f2, f3, f4, ask, q1, q2, q3, q4, tau, o
             if not single and kw.get("num_workers") != (2 if nw else None):
                 raise HarnessError("num_workers not forwarded: %r" % (kw,))
             grown.append(batch_number)
+            grow_kw[batch_number] = {k: v for k, v in kw.items() if k == "num_workers" and v is not None}
 
         real_grow = cp.grow
         env._set(cp, "grow", recorder)
@@ -112,6 +115,15 @@ def body_script(E, sched, single, B, f1, f2, f3, f4, ask, q1, q2, q3, q4, tau, o
 
         pool = basic.SubmitExecutor(None)
         env._set(cr, "get_reusable_executor", lambda *a, **k: pool)
+        # within-batch worker pool of the module-level grow: results must keep the sown order whatever the
+        # completion order (real replay: a thread pool and a function whose first case is the slowest)
+        if env.mode == "sym":
+            wpool = basic.EagerFutureExecutor()
+        else:
+            from concurrent.futures import ThreadPoolExecutor
+
+            wpool = ThreadPoolExecutor(2)
+        env._set(cp, "get_reusable_executor", lambda *a, **k: wpool)
         if single:
             if rng is not None:
                 return False
@@ -138,7 +150,12 @@ def body_script(E, sched, single, B, f1, f2, f3, f4, ask, q1, q2, q3, q4, tau, o
         env._set(cp, "grow", real_grow)
         c2 = cp.Crop(name="t", parent_dir=env.parent)
         for i in want:
-            cp.grow(i, crop=c2, verbosity=0)
+            kw = dict(grow_kw.get(i, {}))
+            if kw and env.mode == "real":
+                from .C04 import _slow_first
+
+                kw["fn"] = _slow_first(fn)
+            cp.grow(i, crop=c2, verbosity=0, **kw)           # grown the way the script grows it
         if not ask:
             if not c2.is_ready_to_reap():
                 return False
